@@ -104,6 +104,22 @@ def span(ctx):
                 par = f.par(par)
             if par is not None:
                 hv = "l:" + par["decls"][0]["name"]
+        # the copy / hand-over may live in a private helper that receives the read handle and the owned lock
+        f_outer = f
+        if not news and hv:
+            for st in f.stmts.values():
+                if st["k"] == "CXXMemberCallExpr" and path(f, f.s(st.get("obj"))) == "this":
+                    g = f.unit.fn_by_id.get((st.get("callee") or {}).get("id"))
+                    if g is None or g.rec != COW or g.access == "public":
+                        continue
+                    idx = [i for i, a in enumerate(st["args"]) if path(f, f.s(a)) == hv]
+                    ret = any(r_["k"] == "ReturnStmt" and any(x["id"] == st["id"] for x in f.descendants(r_)) for r_ in f.stmts.values())
+                    if idx and idx[0] < len(g.params) and ret:
+                        from ..guards import locks_of
+                        f, hv = g, "p:" + g.params[idx[0]]["name"]
+                        la = locks_of(eng, fb, g)
+                        news = [x for x in f.stmts.values() if x["k"] == "CXXNewExpr"]
+                        break
         for n_ in news:
             init = unwrap(f, f.s(n_.get("init")))
             if init is not None and init["k"] in CTORS and len(init["args"]) == 1:
